@@ -664,6 +664,11 @@ fn spawn_async_ao_list_in_task'''),
         ('descriptor-search-starts-at-62', 'brush-core/src/interp.rs', "    let mut candidate_fd_num = 63;", "    let mut candidate_fd_num = 62;"),
         ('descriptor-search-may-return-zero', 'brush-core/src/interp.rs', "        if candidate_fd_num == 0 {\n            return error::unimp(\"no available file descriptors\");\n        }\n    }\n\n    Ok((candidate_fd_num, target_file))", "        if candidate_fd_num < 0 {\n            return error::unimp(\"no available file descriptors\");\n        }\n    }\n\n    Ok((candidate_fd_num, target_file))"),
     ],
+    'U74': [
+        ('substitution-pattern-stops-spanning-newlines', 'brush-core/src/expansion.rs', "                    .set_extended_globbing(self.parser_options.enable_extended_globbing)\n                    .set_case_insensitive(self.shell.options().case_insensitive_conditionals);\n\n                // If no replacement was provided", "                    .set_extended_globbing(self.parser_options.enable_extended_globbing)\n                    .set_multiline(false)\n                    .set_case_insensitive(self.shell.options().case_insensitive_conditionals);\n\n                // If no replacement was provided"),
+        ('case-setter-also-clears-the-newline-flag', 'brush-core/src/patterns.rs', "        self.case_insensitive = value;\n        self", "        self.case_insensitive = value;\n        self.multiline = !value;\n        self"),
+        ('extglob-setter-sets-the-case-flag', 'brush-core/src/patterns.rs', "        self.enable_extended_globbing = value;\n        self", "        self.case_insensitive = value;\n        self"),
+    ],
     'U73': [
         ('every-field-of-a-piece-glued-onto-the-last-field', 'brush-core/src/expansion.rs', "                    Some(last) if i == 0 => {\n                        last.0.append(&mut field.0);", "                    Some(last) => {\n                        last.0.append(&mut field.0);"),
         ('first-field-of-a-piece-stands-alone', 'brush-core/src/expansion.rs', "                    Some(last) if i == 0 => {", "                    Some(last) if i == 1 => {"),
